@@ -85,13 +85,29 @@ def strategy_(draw, tier):
             r = draw(st.integers(0, 99))
             if r < 15 and a["default"] is not None:
                 continue
-            if r < 65:
+            if r < 55:
                 row[a["n"]] = gen.valid(draw, prog, a["t"], dyn)
+            elif r < 65:
+                # an explicit null somewhere inside a conforming datum (GraphQL makes every defaulted / Undefined position
+                # nullable: whether null is acceptable there is decided by deserialize)
+                dv_ = gen.valid(draw, prog, a["t"], dyn)
+                ps_ = [p_ for p_ in gen.paths(dv_) if p_]
+                row[a["n"]] = gen.set_at(dv_, pick(draw, ps_), None) if ps_ else dv_
             elif r < 85:
                 row[a["n"]] = gen.mutants(draw, gen.valid(draw, prog, a["t"], dyn), 1)[0]
             else:
                 row[a["n"]] = pick(draw, gen.ATOMS)
         data.append(row)
+    # explicit nulls, one position at a time, in an otherwise conforming argument (up to 4 rows)
+    for a in ops[0]["args"][:1]:
+        dv_ = gen.valid(draw, prog, a["t"], dyn)
+        ps_ = [p_ for p_ in gen.paths(dv_) if p_ and not isinstance(gen.get_at(dv_, p_), (list, dict))]
+        if ps_:
+            start = draw(st.integers(0, len(ps_) - 1))
+            for p_ in (ps_[start:] + ps_[:start])[:4]:
+                row = {b_["n"]: gen.valid(draw, prog, b_["t"], dyn) for b_ in ops[0]["args"] if b_ is not a}
+                row[a["n"]] = gen.set_at(dv_, p_, None)
+                data.append(row)
     case = {"prog": prog, "ops": ops, "aliaser": dyn, "data": data}
     eh = pick(draw, [None, None, "none", "custom"])
     if eh:
